@@ -56,6 +56,20 @@ ReplyViol(e, fx) ==
                ELSE IF e.res # "ok" THEN {"C01/frontend/conformant-reply-rejected/" \o e.op \o "/" \o e.res}
                ELSE IF fx.await = "reply" /\ ~RetMatches(e) THEN {"C01/frontend/decoded-value-differs/" \o e.op}
                ELSE {})
+         ELSE IF e.peer = "seg"
+         THEN \* C08: the correct reply delivered in separate segments must be parsed to the same result
+              IF e.answers = <<>> \/ e.answers[1].applied # "seg" THEN {}
+              ELSE (IF e.hang THEN {"C08/frontend/hang-on-segmented-reply/" \o e.op}
+                    ELSE IF e.res # "ok" THEN {"C08/frontend/segmented-reply-rejected/" \o e.op \o "/" \o e.res}
+                    ELSE IF fx.await = "reply" /\ ~RetMatches(e) THEN {"C08/frontend/segmented-reply-decoded-differently/" \o e.op}
+                    ELSE {})
+         ELSE IF e.peer = "cut"
+         THEN \* C08: the stream ends inside the correct reply: an error, not a success, and no indefinite wait
+              IF fx.await = "none" \/ e.answers = <<>> \/ e.answers[1].applied # "cut" THEN {}
+              ELSE LET where == IF e.at = 0 THEN "0" ELSE IF e.at > 0 /\ e.at < 12 THEN "header" ELSE IF e.at = 12 THEN "header-end" ELSE "body" IN
+                   (IF e.res = "ok" THEN {"C08/frontend/truncated-reply-accepted/" \o e.op \o "/at=" \o where}
+                    ELSE IF e.hang THEN {"C08/frontend/blocked-on-truncated-reply/" \o e.op \o "/at=" \o where}
+                    ELSE {})
          ELSE IF fx.await = "none" \/ e.peer \notin JudgedMutations THEN {}
               ELSE IF e.peer = "nack" THEN (IF e.res = "ok" THEN {"C03/frontend/nack-reported-as-success/" \o e.op \o "/" \o e.cls} ELSE {})
               ELSE IF e.res = "ok" THEN {"C06/frontend/accepted-bad-reply/" \o tag}
